@@ -276,10 +276,16 @@ def run_parent(ch, solvers, op, plan, run_worker, cache, parent=None) -> dict:
     try:
         with mpsim.patched(world):
             if op[0] == "solve":
-                for s in parent.solve():
-                    res["yielded"].append(tuple(int(x) for x in s))
-                    if len(res["yielded"]) > 100000:
-                        raise mpsim.SimBusyWait("more than 100000 solutions yielded")
+                api = ch.choose(3, "api")  # the three public ways to enumerate
+                if api == 1:
+                    res["yielded"].extend(tuple(int(x) for x in s) for s in parent.find_all())
+                elif api == 2:
+                    parent.solve_all(lambda s: res["yielded"].append(tuple(int(x) for x in s)))
+                else:
+                    for s in parent.solve():
+                        res["yielded"].append(tuple(int(x) for x in s))
+                        if len(res["yielded"]) > 100000:
+                            raise mpsim.SimBusyWait("more than 100000 solutions yielded")
             elif op[0] == "minimize":
                 res["result"] = parent.minimize(op[1])
             else:
